@@ -176,7 +176,7 @@ func (b *builder) base(o baseOpt) {
 				case 0:
 					d.Addr = ""
 				case 1:
-					d.Addr = "0.0.0.0:60000"
+					d.Addr = pick(r, "0.0.0.0:60000", "0.0.0.0:60000", "0.0.0.0:60001", "0.0.0.0:12345") // no address, whatever the port says
 				case 2:
 					d.Addr = k.ip + ":0"
 				case 3:
@@ -1376,6 +1376,22 @@ func (b *builder) listenStep(client int) engine.Step {
 			at = pick(r, 0, 1, span/2, span)
 		}
 		st.Feed = append(st.Feed, engine.Emit{After: at, Via: "udp", From: senders[r.Intn(1+r.Intn(3))], Data: d, Class: cl})
+	}
+	if len(st.Feed) > 0 && r.Intn(6) == 0 {
+		// a controller (or its v6.62 twin) says the same thing twice: the second datagram is an event like the first
+		k := r.Intn(len(st.Feed))
+		twin := st.Feed[k]
+		twin.Data = append([]byte(nil), twin.Data...)
+		if len(twin.Data) == 64 && r.Intn(2) == 0 {
+			twin.Data[0] ^= 0x17 ^ 0x19 // 0x17 <-> 0x19
+			if twin.Class == "valid" {
+				twin.Class = "v19"
+			} else if twin.Class == "v19" {
+				twin.Class = "valid"
+			}
+		}
+		twin.After += time.Duration(r.Intn(3))
+		st.Feed = append(st.Feed[:k+1:k+1], append([]engine.Emit{twin}, st.Feed[k+1:]...)...)
 	}
 	// stop: before any datagram, between datagrams, or after the last one
 	switch r.Intn(5) {
